@@ -1478,4 +1478,24 @@ theorem run_evolves (ops : List Op) : ∀ (h : Host) (cid : Nat) (cs : CState), 
     exact ⟨cs2, h2, e1.trans e2⟩
 
 
+/-! ## totals stay inside `types.Currency` -/
+
+theorem decideFund_total_le {h : Host} {cid : Nat} {ds : List (Nat × Nat)} {sig : Sig}
+    {e : Effect} (he : (decideFund h cid ds sig).eff = e) (hne : e ≠ .none) : depositTotal ds ≤ maxCurrency := by
+  unfold decideFund at he
+  rejall
+  omega
+
+theorem decideReplenish_total_le {h : Host} {pool : Bool} {cid : Nat} {accounts : List Nat} {target : Nat} {chal : Sig}
+    {second : Option Sig} {e : Effect}
+    (he : (decideReplenish h pool cid accounts target chal second).eff = e) (hne : e ≠ .none) :
+    depositTotal (replenishDeposits (if pool then poolBal h.pools else h.accounts) target accounts) ≤ maxCurrency := by
+  unfold decideReplenish at he
+  cases pool <;> simp only [Bool.false_eq_true, if_false, if_true] at he ⊢ <;>
+  cases second with
+  | none => rejall; all_goals (first | rej | contradiction)
+  | some rsig =>
+  rejall
+  omega
+
 end Verif.Rhp
